@@ -250,17 +250,17 @@ func c11Check(c *Ctx, m map[string]interface{}, op, path, newName string) (nontr
 
 func c11Run(c *Ctx) {
 	mustBeDefault(c)
-	c.S.Rule = "cases = (Map, operation, path[, new name]): every Map template with <= N nodes over keys {a,b,k}, leaves {string, null}, no empty lists; operations SetValueForPath (string, map and list values) / Remove / RenameKey; all dot-paths of 1..3 segments over {a,b,k,z}; new names {a,b,k,z}. Oracle on a deep copy taken before the call: on error the Map is unchanged (structural diff and write monitor on the frozen receiver); on success exactly one entry set / removed / moved within its map plus the stated post-condition; applicable operations on the nested-map domain must succeed; rename onto an existing sibling (incl. top level and null-valued siblings) must be refused. Ascending and descending map order. non-trivial = the operation succeeded and changed the Map."
+	c.S.Rule = "cases = (Map, operation, path[, new name]): every Map template with <= N nodes over keys {a,ab,k}, leaves {string, null}, no empty lists; operations SetValueForPath (string, map and list values) / Remove / RenameKey; all dot-paths of 1..3 segments over {a,b,k,z}; new names {a,b,k,z}. Oracle on a deep copy taken before the call: on error the Map is unchanged (structural diff and write monitor on the frozen receiver); on success exactly one entry set / removed / moved within its map plus the stated post-condition; applicable operations on the nested-map domain must succeed; rename onto an existing sibling (incl. top level and null-valued siblings) must be refused. Ascending and descending map order. non-trivial = the operation succeeded and changed the Map."
 	c.S.Assumptions = []string{"SetValueForPath below a null parent is the documented no-op"}
 	n := 5
 	if c.Thorough {
 		n = 6
 	}
 	var paths []string
-	seqs([]string{"a", "b", "k", "z"}, 3, func(s []string) { paths = append(paths, strings.Join(s, ".")) })
-	g := newGen(GenP{Keys: []string{"a", "b", "k"}, MaxList: 3, MaxKeys: 3, EmptyList: false, EmptyMap: true, ListInList: true, Leaves: []interface{}{"v", nullLeaf{}}})
+	seqs([]string{"a", "ab", "k", "z"}, 3, func(s []string) { paths = append(paths, strings.Join(s, ".")) })
+	g := newGen(GenP{Keys: []string{"a", "ab", "k"}, MaxList: 3, MaxKeys: 3, EmptyList: false, EmptyMap: true, ListInList: true, Leaves: []interface{}{"v", nullLeaf{}}})
 	type opn struct{ op, name string }
-	ops := []opn{{"set", ""}, {"set-map", ""}, {"set-list", ""}, {"remove", ""}, {"rename", "a"}, {"rename", "b"}, {"rename", "z"}}
+	ops := []opn{{"set", ""}, {"set-map", ""}, {"set-list", ""}, {"remove", ""}, {"rename", "a"}, {"rename", "ab"}, {"rename", "z"}}
 	g.rootMaps(n, func(t *T) {
 		for _, p := range paths {
 			for _, o := range ops {
